@@ -213,6 +213,15 @@ Theorem C13_find_occurrences_complete : forall dic occ, find_occurrences dic = O
     In sub (extract_subcells (cgeom c)) -> recorded occ sub key.
 Proof. exact find_occurrences_complete. Qed.
 
+(* ... and counts each mention exactly once (tables with distinct keys): the
+   number of entries [key] under [sub] is the number of times the geometry of
+   [key] mentions [sub] - so len(occurrences[sub]), which the score divides by, is
+   the number of mentions of sub in reachable cells *)
+Theorem C13_find_occurrences_count : forall dic occ, NoDup (map fst dic) -> find_occurrences dic = Ok occ ->
+  forall key c sub, reachable dic key -> lookup key dic = Some c ->
+    occ_cnt occ sub key = count_occ Z.eq_dec (extract_subcells (cgeom c)) sub.
+Proof. exact find_occurrences_count. Qed.
+
 (* inlining does what the option says: afterwards no cell mentions a cell of
    to_inline (given that no geometry is a bare CellRef, as pot_fill guarantees) *)
 Theorem C13_inline_complete : forall fuel ti dic dic',
@@ -618,8 +627,8 @@ Print Assumptions C13_family_written.
 
 (* find_occurrences, the score, inline_cells: every set, acyclic tables, fuel *)
 Theorem C13_family_inline :
-  ltac:(let t := type of (conj C13_inline_den (conj C13_inline_score_den (conj C13_find_occurrences_sound (conj C13_find_occurrences_complete (conj C13_inline_complete (conj C13_inline_model (conj C13_inline_total C13_acyclic_unique_model))))))) in exact t).
-Proof. exact (conj C13_inline_den (conj C13_inline_score_den (conj C13_find_occurrences_sound (conj C13_find_occurrences_complete (conj C13_inline_complete (conj C13_inline_model (conj C13_inline_total C13_acyclic_unique_model))))))). Qed.
+  ltac:(let t := type of (conj C13_inline_den (conj C13_inline_score_den (conj C13_find_occurrences_sound (conj C13_find_occurrences_complete (conj C13_find_occurrences_count (conj C13_inline_complete (conj C13_inline_model (conj C13_inline_total C13_acyclic_unique_model)))))))) in exact t).
+Proof. exact (conj C13_inline_den (conj C13_inline_score_den (conj C13_find_occurrences_sound (conj C13_find_occurrences_complete (conj C13_find_occurrences_count (conj C13_inline_complete (conj C13_inline_model (conj C13_inline_total C13_acyclic_unique_model)))))))). Qed.
 Print Assumptions C13_family_inline.
 
 (* pot_fill under the inline flags, with and without transformations; both stages of the options *)
